@@ -88,6 +88,7 @@ type EndCfg struct {
 	Handlers    string `json:"handlers,omitempty"` // default | record | error
 	HandlerErrAt int   `json:"handler_err_at,omitempty"`
 	Subprotocols []string `json:"subprotocols,omitempty"`
+	ReqHeader   map[string][]string `json:"req_header,omitempty"` // client: application-supplied request headers
 }
 
 // Chunk is one write call on an open message writer.
@@ -95,6 +96,7 @@ type Chunk struct {
 	How string `json:"how"` // w Write | s io.WriteString | rf ReadFrom (io.Copy) | z zero-length Write
 	N   int    `json:"n"`
 	RfChunk int `json:"rf_chunk,omitempty"` // reader chunk size for ReadFrom
+	RfEOF   bool `json:"rf_eof,omitempty"`  // the source returns its last bytes together with io.EOF
 }
 
 // WOp is one step of a write program.
